@@ -165,7 +165,7 @@ def encoding(ctx, crate, crs, tag):
                             d1, _ = q.origin_thru(vb, d0["t"]["args"][1], transparent=set())
                             from_locked = any(isinstance(e, dict) and e.get("n") == "locked" for e in d1.get("proj", [])) and \
                                 any(isinstance(e, dict) and e.get("as") == "Some" for e in d1.get("proj", []))
-                        if lps and "candidates" in loop_source_fields(vb, lps[0]) and visits_all(vb, lps[0]) and from_locked:
+                        if lps and "candidates" in loop_source_fields(vb, lps[0]) and visits_all_except_equal(vb, crate, lps[0]) and from_locked:
                             ok_lock = True
         ctx.ob(R, b.key, "locked->lock-clauses", ok_lock, b.loc(),
                "a locked package forbids the other candidates of the full candidate list")
@@ -194,7 +194,7 @@ def encoding(ctx, crate, crs, tag):
         for i, t in b.calls_to(WLP + "lock"):
             ok, loop = unconditional_in_loop(b, crs, i, allowed_skip_edges=skips)
             ok_noskip, _ = unconditional_in_loop(b, crs, i)
-            ctx.ob(R, b.key, "lock:for-every-other-candidate", ok and loop is not None and visits_all(b, loop) and
+            ctx.ob(R, b.key, "lock:for-every-other-candidate", ok and loop is not None and visits_all_except_equal(b, crate, loop) and
                    elem_of_loop(b, loop, b.calls_to(VMAP + "intern_solvable")[-1][1]["args"][1]), where_call(b, i),
                    "a Lock clause is created for every candidate; the only skip is equality with the locked one")
             # first argument is the locked solvable's variable, second the loop candidate's
@@ -629,7 +629,18 @@ def clause_shape(ctx, crate, crs, tag):
                          [t for i, t in cb.calls() if t.get("f") and t["f"]["name"] in ("ne", "eq")]
                     ev = [t for i, t in cb.calls() if t.get("f") and t["f"]["name"] == "eval"]
                     uo = [t for i, t in cb.calls() if t.get("f") and t["f"]["name"] == "unwrap_or" and t["args"][1].get("v") is True]
-                    ok_pred = bool(ne) and bool(ev) and bool(uo)
+                    # ... or the same decision written as a `match lit.eval(..)` with the undecided case on the accepting side
+                    uo_false = [t for i, t in cb.calls() if t.get("f") and t["f"]["name"] == "unwrap_or" and t["args"][1].get("v") is False]
+                    matched = [c2 for c2 in q.conds(cb, crs) if c2.kind in ("discr", "int", "bool") and c2.src and c2.src.get("k") == "call"
+                               and c2.src["t"]["f"]["name"] == "eval"]
+                    undecided_accepts = False
+                    for c2 in matched:
+                        if c2.kind == "discr" and c2.target("None") is not None:
+                            # the None (undecided) edge must be able to reach a Break construction
+                            reach = cb.reachable([c2.target("None")])
+                            undecided_accepts = any(s_["r"]["k"] == "agg" and s_["r"].get("variant") == "Break"
+                                                    for x in reach for s_ in cb.blocks[x]["stmts"] if s_["k"] == "assign")
+                    ok_pred = bool(ne) and bool(ev) and (bool(uo) or undecided_accepts) and not uo_false
             ctx.ob(R, nu.key, "replacement-is-unwatched-and-not-false", ok_pred, nu.loc(),
                    "a new watch must differ from the other watched literal and must not evaluate to false")
         else:
@@ -646,6 +657,19 @@ def _requires_conflict_flag(b, crs):
         if c.kind == "discr" and c.adt == "std::option::Option" and c.src and c.src["k"] == "call" and c.src["t"]["f"]["name"] == "find":
             find_none.append((c.bb, c.target("None"), c.target("Some")))
     if not find_none:
+        # `let watched = candidates.find(..); let conflict = watched.is_none();` - the flag *is* "find found nothing"
+        for i, j, s in b.assigns():
+            r = s["r"]
+            if r["k"] != "agg" or r.get("ak") != "tuple":
+                continue
+            for flag in r["ops"]:
+                if flag.get("k") == "const":
+                    continue
+                d, _ = q.origin_thru(b, flag, transparent=set())
+                if d["k"] == "call" and d["t"]["f"]["name"] == "is_none" and d["t"]["args"]:
+                    d2, _ = q.origin_thru(b, d["t"]["args"][0], transparent=set())
+                    if d2["k"] == "call" and d2["t"]["f"]["name"] == "find":
+                        return True
         return False
     ok = True
     n_true = n_false = 0
